@@ -52,7 +52,8 @@ def cases(draw):
 
 def plan(tier):
     n = 600 if tier == "quick" else 48000
-    return [{"kind": "hyp", "name": "leaders", "strategy": cases(), "examples": n}]
+    return [{"kind": "hyp", "name": "leaders", "strategy": cases(), "examples": n},
+            {"kind": "hyp", "name": "in-place-pairs", "strategy": common.in_place_pairs(cases()), "examples": max(60, n // 16)}]
 
 
 def classify(case):
